@@ -7,6 +7,13 @@ use std::time::Instant;
 
 pub const VERIF: &str = "/verif";
 
+/// Where evidence and replay files are written (the committed KNOWN_FINDINGS.json is always
+/// read from /verif). Overridable so that a scratch mirror of the harness, used to try
+/// seeded changes against a scratch copy of the repository, does not touch /verif/evidence.
+pub fn out_home() -> PathBuf {
+    PathBuf::from(std::env::var("VERIF_OUT").unwrap_or_else(|_| VERIF.to_string()))
+}
+
 pub struct Report {
     pub prop: String,
     pub tier: String,
@@ -117,7 +124,7 @@ impl Report {
             .sum();
 
         // replay files
-        let dir = PathBuf::from(VERIF).join("replays").join(&self.prop);
+        let dir = out_home().join("replays").join(&self.prop);
         let _ = std::fs::create_dir_all(&dir);
         // drop stale replay files of this tier
         if let Ok(rd) = std::fs::read_dir(&dir) {
@@ -237,7 +244,7 @@ impl Report {
             "wall_s": (wall * 100.0).round() / 100.0,
             "violations": n_real,
         });
-        let evdir = PathBuf::from(VERIF).join("evidence");
+        let evdir = out_home().join("evidence");
         let _ = std::fs::create_dir_all(&evdir);
         std::fs::write(
             evdir.join(format!("{}.json", self.prop)),
